@@ -559,6 +559,10 @@ def strings_upto(alphabet, maxlen):
 def report_crash(ctx, suite, cases, crash):
     idx, rc, err = crash
     kind = {86: "AddressSanitizer", 87: "UndefinedBehaviorSanitizer", 88: "LeakSanitizer", -999: "timeout (a call did not return)"}.get(rc, "crash rc=%s" % rc)
+    if "LeakSanitizer" in err:
+        kind = "LeakSanitizer"
+    if "ERROR: AddressSanitizer" in err:
+        kind = "AddressSanitizer"
     c = cases[idx] if idx < len(cases) else None
     return violation(ctx, "crash-%s" % suite, {"kind": "implementation-crash", "suite": suite, "sanitizer": kind,
                                                "case": c, "case_index": idx, "stderr": err[-3000:]})
